@@ -24,7 +24,7 @@ import (
 func init() { engines["surgery"] = surgeryEngine }
 
 func runCLI(args ...string) (int, string) {
-	out, err := exec.Command("/verif/bin/bbolt", args...).CombinedOutput()
+	out, err := exec.Command(cliPath(), args...).CombinedOutput()
 	if err == nil {
 		return 0, string(out)
 	}
